@@ -17,7 +17,7 @@ import astor
 from pydoctor import epydoc2stan, model, node2stan, extensions, linker
 from pydoctor.epydoc.markup._pyval_repr import colorize_inline_pyval
 from pydoctor.astutils import (is_none_literal, is_typing_annotation, is_using_annotations, is_using_typing_final, node2dottedname, node2fullname, 
-                               is__name__equals__main__, unstring_annotation, iterassign, extract_docstring_linenum, infer_type, get_parents,
+                               is__name__equals__main__, unstring_annotation, iterassign, extract_docstring_linenum, extract_docstring, infer_type, get_parents,
                                get_docstring_node, NodeVisitor, Parentage, Str)
 
 
@@ -759,6 +759,13 @@ class ModuleVistor(NodeVisitor):
                 # Lone surrogates cannot be encoded when the pages are written: show them escaped.
                 docstring = docstring.encode('utf-8', 'backslashreplace').decode('utf-8')
             obj.docstring = docstring
+            if isinstance(expr, Str):
+                # Like the docstring of a definition, the assigned text is shown without the 
+                # indentation of the source; its problems are located in the assigned literal, 
+                # not in the docstring it replaces.
+                lineno, obj.docstring = extract_docstring(expr)
+                if obj.module is self.builder.currentMod:
+                    obj.docstring_lineno = lineno
             # TODO: It might be better to not perform docstring parsing until
             #       we have the final docstrings for all objects.
             obj.parsed_docstring = None
